@@ -126,7 +126,7 @@ def c02(tier):
         cases.append(run_case(whole))
         cases.append(runs_case(msgs))
         cases.append(proc_case(whole, 64, random_chunks(s.rng, len(whole))))
-    pay = [m for m in c08_messages(s.rng, "quick") if m.count(b"\n") > 1 and b";" in m]
+    pay = [m for m in c08_messages(s.rng, "quick") if m.count(b"\n") > 1 and b";" in m and len(m) <= 40]
     s.rng.shuffle(pay)
     for m in pay[:60 if tier == "quick" else 600]:
         n = len(m)
@@ -151,6 +151,15 @@ def replay(path):
     rep = json.load(open(path))
     rec = rep.get("record") or rep.get("case")
     prop = os.path.basename(os.path.dirname(os.path.abspath(path)))
+    if rec is None:
+        # compile outcomes (C14), build probes (C13) and queue soaks (C09) are not single records: show what was
+        # reported and re-run the property's quick check, which reproduces it on /repo's current tree
+        print("reported:", rep.get("why"))
+        for k in ("decls", "attrs", "K", "operations_before", "output"):
+            if k in rep:
+                print("  %s: %s" % (k, str(rep[k])[:600]))
+        print("re-running the quick check of %s" % prop)
+        return CHECKS[prop]("quick") if prop in CHECKS else 2
     s = Session(prop + "-replay", "quick")
     C.build_harness()
     C.write_ifaces_module(s.wd)
@@ -1310,7 +1319,52 @@ def c09(tier):
                     ops.append({"op": "count"})
             cases.append({"kind": "queue", "K": K, "ops": ops})
     cases.append({"kind": "errtable"})      # number / description / Display / Response of all standard errors
+    # soak: one queue instance lives through > 2^16 (thorough: > 2^17) stored errors, partly filled, drained in between
+    soaks = []
+    for K in ((3, 10) if tier == "quick" else (1, 2, 3, 4, 10)):
+        # `stored` counts the errors that found room (a free-running counter in an implementation would count these)
+        ops, stored, occ, target = [], 0, 0, (66600 if tier == "quick" else 140000)
+        while stored < target:
+            r = s.rng.random()
+            if occ < K and r < 0.55:
+                ops.append({"op": "push", "n": s.rng.randint(1, 30000), "custom": True})
+                occ += 1
+                stored += 1
+            elif occ == K and r < 0.05:
+                ops.append({"op": "push", "n": s.rng.randint(1, 30000), "custom": True})      # overflow: newest becomes -350
+            elif r < 0.97:
+                ops.append({"op": "pop"})
+                occ = max(0, occ - 1)
+            else:
+                ops.append({"op": "count"})
+        ops += [{"op": "pop"}] * (K + 1)
+        soaks.append({"kind": "queue", "K": K, "ops": ops})
     recs = s.execute(cases, "c09")
+    # a soak is executed on ONE queue object; its record is cut into lines of 2000 operations whose queue state the
+    # trace specification carries from line to line (TraceScpi variable `carry`)
+    srecs = s.execute(soaks, "c09soak")
+    s.cov["soak_operations"] = sum(len(r["ops"]) for r in srecs)
+    sfiles = []
+    for r in srecs:
+        lines = []
+        for k in range(0, len(r["ops"]), 2000):
+            # (the description text of the custom errors is the same in every entry: dropped from the soak lines to keep them small)
+            lines.append({"kind": "queue", "K": r["K"], "cont": k > 0, "ops": r["ops"][k:k + 2000],
+                          "obs": [{kk: v for kk, v in o.items() if kk != "txt"} for o in r["obs"][k:k + 2000]]})
+        pth = os.path.join(s.wd, "c09soak%d.ndjson" % r["K"])
+        C.write_ndjson(pth, lines)
+        sfiles.append((pth, lines))
+    for res in C.validate_traces(s.wd, "TraceScpi", [p_ for p_, _ in sfiles], workers=8):
+        lines = dict(sfiles)[res["file"]]
+        if res["accepted"]:
+            s.cov["traces_validated_against_impl"] += len(lines)
+        else:
+            bad = lines[res["reject_index"] - 1]
+            pr = C.write_replay("C09", "soak-K%d-line%d" % (bad["K"], res["reject_index"]),
+                                {"why": "long-lived queue: an entry was lost, duplicated or returned out of order", "K": bad["K"],
+                                 "line": res["reject_index"], "operations_before": 2000 * (res["reject_index"] - 1), "kind": "soak",
+                                 "ops_tail": bad["ops"][:40], "obs_tail": bad["obs"][:40]})
+            s.violations.append(("error queue of capacity %d misbehaved after about %d operations of one instance" % (bad["K"], 2000 * (res["reject_index"] - 1)), pr))
     rejected = s.validate(recs, "c09", chunk=500)
     s.report_rejected(rejected, "errors were not returned oldest first, the count was wrong, the queue exceeded its capacity, or overflow did not "
                                 "replace exactly the newest entry by -350")
@@ -1399,7 +1453,9 @@ def c03_literals(rng, tier):
         for k in kinds:
             out.append((ty, k))
     # floats: boundaries, halfway cases, subnormals, seeded random decimal strings
-    fl = ["0", "-0", "0.0", "1", "-1", "0.1", "0.5", "1e23", "8.5e-320", "4.9e-324", "2.4703282292062327e-324", "2.4703282292062328e-324",
+    fl = ["9.9E+37", "9.9e37", "-9.9E+37", "9.91E+37", "9.91e37", "-9.91E37", "+99E36", "0.99E38", "991E35", "99" + "0" * 36, "9.9E37", "9.90000000000001E37",
+          "9.89999999999999E+37", "3.4028235E38", "1.999.0"[:5], "1999.0", "65535", "65536", "4294967296", "18446744073709551616",
+          "0", "-0", "0.0", "1", "-1", "0.1", "0.5", "1e23", "8.5e-320", "4.9e-324", "2.4703282292062327e-324", "2.4703282292062328e-324",
           "1.7976931348623157e308", "1.7976931348623158e308", "1.7976931348623159e308", "2e308", "9007199254740993", "9007199254740992.5", "16777217",
           "16777216.5", "3.4028235e38", "3.4028236e38", "3.40282357e38", "1.17549435e-38", "1e-45", "7e-46", "1.401298464324817e-45",
           "0.000000000000000000000000000000000000000000001", "123456789012345678901234567890", ".5", "5.", "+.5e+3", "1E5", "1e+5", "00001.50000",
